@@ -239,10 +239,12 @@ def run_pairs(rep, tier: str, seed: int) -> dict:
         if drift:
             ex0 = next(f for f in fails if f["kind"] == "statement")
             msg = f"{drift} pair schedules left the specification's statement sequence, e.g. {ex0['config']}#{ex0['beh']}: {ex0['what']}"
-            if drift > max(3, n // 100):
-                rep.machinery_failure(msg)
-            else:
-                print("DRIFT: " + msg)
+            print("DRIFT: " + msg)
+        # schedules off the specification's statement sequence, judged by its terminal states (all of them when the
+        # handlers' statement sequence drifted and the lock-step replay decides nothing)
+        drifted = drift > max(3, n // 100)
+        out["free_schedules"] = CS.free_component(rep, [c for c, _ in work], exported, "thorough" if drifted else tier, rnd)
+        out["free_schedules"]["statement_sequence_drifted"] = drifted
         for name, (k, b) in per.items():
             out["configs"][name]["replayed"] = k
             if b and "sample" not in out:
